@@ -66,7 +66,7 @@ TGen ==
   /\ IsEvent("TypeGen")
   /\ LET e == Rec[l]
          S == MergeItems(CatFiles(e.schemaFiles, 1))
-         cfg == [allowUndefined |-> e.cfg.allowUndefined, scalars |-> e.scalars]
+         cfg == [allowUndefined |-> e.cfg.allowUndefined, scalars |-> e.scalars, modelPlugin |-> FALSE, modelTypes |-> <<>>]
          defs == e.opFiles[1].doc.defs
          frs == FragMapOf(defs)
          viol == Violations(S, defs)
